@@ -32,12 +32,13 @@ Pow2(n) == LET RECURSIVE p(_)
      "chost" / "shost" / "host"   h, bits              (chost:a.b.c.d/bits)
      "tag"    name             name in tags            (tag:x, service:x, mark:x)
      "cdata" / "sdata" / "data"   tok                  (cdata:"tok")
-     "ftime" / "ltime"  lo, hi (time ranks, -1 open)   *)
+     "ftime" / "ltime"  lo, hi (time ranks, -1 open)
+     "sub_port" n / "sub_id" name   restricted sub-queries (only in searches, C02)   *)
 InRange(v, lo, hi) == v >= lo /\ (hi = -1 \/ v <= hi)
 HostIn(ip, h, bits) == (ip \div Pow2(32 - bits)) = (h \div Pow2(32 - bits))
 HasTok(s, d, tok) == \E i \in DOMAIN s.ev : s.ev[i].d = d /\ s.ev[i].t = tok
 
-AtomHolds(a, s) ==
+AtomHolds(a, s, P) ==
     CASE a.k = "id"     -> InRange(s.id, a.lo, a.hi)
       [] a.k = "idlist" -> s.id \in Range(a.s)
       [] a.k = "cport"  -> s.cport = a.n
@@ -55,6 +56,9 @@ AtomHolds(a, s) ==
       [] a.k = "data"   -> HasTok(s, "c", a.tok) \/ HasTok(s, "s", a.tok)
       [] a.k = "ftime"  -> InRange(s.ft, a.lo, a.hi)
       [] a.k = "ltime"  -> InRange(s.lt, a.lo, a.hi)
+      \* restricted sub-queries: some visible stream t of the searched population P satisfies the sub-query and the join
+      [] a.k = "sub_port" -> \E t \in P : t.cport = a.n /\ s.sport = t.sport          \* @s:cport:n sport:@s:sport@
+      [] a.k = "sub_id"   -> \E t \in P : a.name \in Range(t.tags) /\ s.id = t.id + 1  \* @s:tag:x id:@s:id@+1
 
 IsDataAtom(a) == a.k \in {"cdata", "sdata", "data"}
 DirsOf(a) == CASE a.k = "cdata" -> {"c"} [] a.k = "sdata" -> {"s"} [] a.k = "data" -> {"c", "s"}
@@ -89,12 +93,12 @@ ChainsOf(q) ==
       [] q.op = "or"   -> ChainsOf(q.x) \cup ChainsOf(q.y)
 
 \* three-valued meaning of a query on a stream
-RECURSIVE Eval3(_, _)
-Eval3(q, s) ==
-    CASE q.op = "atom" -> LET b == AtomHolds(q.a, s) IN <<b, b>>
-      [] q.op = "not"  -> LET r == Eval3(q.x, s) IN <<~r[2], ~r[1]>>
-      [] q.op = "and"  -> LET x == Eval3(q.x, s) y == Eval3(q.y, s) IN <<x[1] /\ y[1], x[2] /\ y[2]>>
-      [] q.op = "or"   -> LET x == Eval3(q.x, s) y == Eval3(q.y, s) IN <<x[1] \/ y[1], x[2] \/ y[2]>>
+RECURSIVE Eval3(_, _, _)
+Eval3(q, s, P) ==
+    CASE q.op = "atom" -> LET b == AtomHolds(q.a, s, P) IN <<b, b>>
+      [] q.op = "not"  -> LET r == Eval3(q.x, s, P) IN <<~r[2], ~r[1]>>
+      [] q.op = "and"  -> LET x == Eval3(q.x, s, P) y == Eval3(q.y, s, P) IN <<x[1] /\ y[1], x[2] /\ y[2]>>
+      [] q.op = "or"   -> LET x == Eval3(q.x, s, P) y == Eval3(q.y, s, P) IN <<x[1] \/ y[1], x[2] \/ y[2]>>
       [] q.op = "then" -> \* alternatives come from OR and from either-direction atoms: a disjunction of chains
                           LET rs == {Chain3(c, s) : c \in ChainsOf(q)}
                           IN <<\E r \in rs : r[1], \E r \in rs : r[2]>>
@@ -139,8 +143,8 @@ NFHolds(nf, s) == ~nf.imp /\ \E i \in DOMAIN nf.cs : \A j \in DOMAIN nf.cs[i] : 
 \* C03: the normal form accepts a stream iff the expression as written does (within the claimed bounds),
 \* and "matches nothing" is only reported for queries no stream of the universe satisfies
 NormalFormRight(q, nf, pop) ==
-    \A i \in DOMAIN pop : LET r == Eval3(q, pop[i]) h == NFHolds(nf, pop[i]) IN (r[1] => h) /\ (h => r[2])
-ImpossibleRight(q, nf, pop) == nf.imp => \A i \in DOMAIN pop : ~Eval3(q, pop[i])[1]
+    \A i \in DOMAIN pop : LET r == Eval3(q, pop[i], Range(pop)) h == NFHolds(nf, pop[i]) IN (r[1] => h) /\ (h => r[2])
+ImpossibleRight(q, nf, pop) == nf.imp => \A i \in DOMAIN pop : ~Eval3(q, pop[i], Range(pop))[1]
 
 -----------------------------------------------------------------------------
 (* ---------- C02: search over a stack of index files ----------
@@ -166,9 +170,10 @@ Cmp(sorting, a, b) ==
 
 \* restrict = set of stream ids the caller limits the search to ({} = no restriction)
 ResultAllowed(files, q, sorting, limit, skip, restrict, res, more) ==
-    LET vis == {s \in VisibleStreams(files) : restrict = {} \/ s.id \in restrict}
-        must == {s \in vis : Eval3(q, s)[1]}
-        may  == {s \in vis : Eval3(q, s)[2]}
+    LET all == VisibleStreams(files)                      \* sub-queries range over all visible streams
+        vis == {s \in all : restrict = {} \/ s.id \in restrict}
+        must == {s \in vis : Eval3(q, s, all)[1]}
+        may  == {s \in vis : Eval3(q, s, all)[2]}
         byId(i) == CHOOSE s \in vis : s.id = i
         n == Len(res)
         le(a, b) == Cmp(sorting, a, b) <= 0
